@@ -8,11 +8,17 @@ NAMES_E = ["Ea", "Eb", "Ec"]
 NAMES_F = ["fa", "fb", "fc", "fd", "fe", "ff", "fg", "fh"]
 
 
-def rand_enum(rng, name, maxbits=None):
+def rand_enum(rng, name, maxbits=None, wide=False):
     n = rng.randint(1, 4)
     bits = maxbits or rng.choice([1, 1, 2, 3, 4, 5, 7, 8])
+    if wide and rng.random() < 0.25:
+        # flag-mask style enums: the largest enumerator near a power of two far beyond 8 bits (width computations in floating
+        # point go wrong from 2^49 on)
+        bits = rng.choice([9, 16, 24, 31, 32, 33, 48, 49, 50, 51, 52, 53, 54, 56, 60, 63, 64])
     vals = set()
     top = rng.randint(1 << (bits - 1), (1 << bits) - 1) if bits > 1 else rng.choice([0, 1])
+    if bits > 8:
+        top = rng.choice([1 << (bits - 1), (1 << (bits - 1)) + 1, (1 << bits) - 1, (1 << bits) - 2, top])
     vals.add(top)
     n = min(n, top + 1)
     while len(vals) < n:
@@ -56,13 +62,19 @@ def rand_type(rng, enums, structs, depth, fixed=False):
     return rand_scalar(rng, enums, allow_str=not fixed)
 
 
-def rand_schema(rng, depth=3, nstructs=None, fixed=False, maxfields=5):
-    enums = [rand_enum(rng, n) for n in NAMES_E[:rng.randint(1, 3)]]
+def rand_schema(rng, depth=3, nstructs=None, fixed=False, maxfields=5, wide_enums=False):
+    # wide_enums: enumerators beyond 8 bits, up to 2^64-1 (the Python codec only: reflection and the C++ run-time schema hold
+    # enumerator values as i32)
+    enums = [rand_enum(rng, n, wide=wide_enums) for n in NAMES_E[:rng.randint(1, 3)]]
     structs = []
     ns = nstructs or rng.randint(1, 4)
     for si in range(ns):
         nf = rng.randint(1, maxfields)
         ids = rng.sample(range(0, 12), nf)
+        if wide_enums and nf >= 2 and rng.random() < 0.15:
+            # two fields sharing one id (no check forbids it): ties are serialized in declaration order
+            a, b = rng.sample(range(nf), 2)
+            ids[b] = ids[a]
         fields = []
         for fi in range(nf):
             fields.append({"name": NAMES_F[fi], "id": ids[fi],
